@@ -49,6 +49,8 @@ class Overlay:
         self.ghosts = []      # dict(fn, where, nth, anchor, text)
         self.rlimit = None
         self.extra_args = []
+        self.crate_features = []
+        self.external_impls = []   # impl headers kept verbatim but outside verification (their contracts are established elsewhere)
         self.attrs = []       # (fn, attribute) — verifier attributes such as #[verifier::spinoff_prover]
         self.externals = []   # fns kept with their real body but marked external_body (assumed contract)
         self._parse()
@@ -129,6 +131,10 @@ class Overlay:
                     self.rlimit = parts[1]
                 elif k == 'external':
                     self.externals.append(parts[1])
+                elif k == 'feature':
+                    self.crate_features.append(parts[1])
+                elif k == 'external-impl':
+                    self.external_impls.append(' '.join(parts[1:]))
                 elif k == 'attr':
                     self.attrs.append((parts[1], ' '.join(parts[2:])))
                 elif k == 'verus-arg':
@@ -677,6 +683,8 @@ def build(ov):
     out = []
     out.append('// GENERATED by vx from unit %s — do not edit. Bodies are cut from the working tree.' % ov.unit)
     out.append('#![allow(unused)]')
+    if ov.crate_features:
+        out.append('#![feature(%s)]' % ', '.join(ov.crate_features))
     out.append('use vstd::prelude::*;')
     out.append('verus! {')
     out.append('#[verifier::external_body]\nfn vx_refuse() ensures false { panic!() }  // N5: a panic never returns')
@@ -708,6 +716,9 @@ def build(ov):
             b.functions_cut.append(key)
         else:
             t = _apply_scoped(ov, key, text, log)
+            if kind == 'impl' and key in ov.external_impls:
+                t = '#[verifier::external]\n' + t
+                log.append(dict(rule='N7', item=key, count=1, note='impl block kept verbatim but external to verification'))
             l0 = cur_line()
             out.append(t)
             b.fn_ranges.append((key, l0, l0 + t.count('\n'), origin))
@@ -1017,7 +1028,7 @@ def classify(res, built):
 
 TRUST_RE = re.compile(r'(assume\s*\(|admit\s*\(|#\[verifier::external_body\]|assume_specification|#\[verifier::external[a-z_]*\]|'
                       r'#\[verifier::exec_allows_no_decreases_clause\]|#\[verifier::truncate\]|#\[verifier::external_type_specification\]|'
-                      r'#\[verifier::accept_recursive_types|#\[verifier::reject_recursive_types|no_decreases|--no-verify|#\[verifier::opaque\]axiom)')
+                      r'#\[verifier::accept_recursive_types|#\[verifier::reject_recursive_types|no_decreases|--no-verify|#\[verifier::opaque\]axiom|uninterp\s+spec\s+fn|global\s+size_of)')
 
 
 def trusted_scan(text):
